@@ -14,6 +14,7 @@ mod res;
 mod val;
 mod visit;
 mod w_defrag;
+mod w_stream;
 mod worlds;
 
 use crate::core::Prop;
